@@ -37,6 +37,11 @@ def is_pseudo(ins) -> bool:
 # ----------------------------------------------------------------------------------------------------------------
 # rendering
 # ----------------------------------------------------------------------------------------------------------------
+# trailing trivia: nothing, blanks, and comments with content that must stay inert (quotes, colons, directives, #, unicode)
+COMMENTS = ["", "", "", " # c", "#c", "   # jal x0, 0", "  ", ' # say "hi"', " # x: .word 5", ' #"', " # it's", " ## twice # thrice", " # a, b(c) [1] +0x4",
+            " # é ü", " # .data", "\t# tab", " # lbl:"]
+
+
 class Tape:
     def __init__(self, tape):
         self.tape = list(tape) or [0]
@@ -144,8 +149,8 @@ def render(ast, tape, trivia=True):
             for _ in range(2):
                 if t.pick(7) != 6:
                     break
-                lines.append(["", "   ", "# a comment line", "\t", "    # addi x1, x1, 1"][t.pick(5)])
-            s = ["", "  ", "\t", "    "][t.pick(4)] + s + ["", "", " # c", "#c", "   # jal x0, 0", "  "][t.pick(6)]
+                lines.append(["", "   ", "# a comment line", "\t", "    # addi x1, x1, 1", '# "quoted" comment', "#", "# .text"][t.pick(8)])
+            s = ["", "  ", "\t", "    "][t.pick(4)] + s + COMMENTS[t.pick(len(COMMENTS))]
         lines.append(s)
         if record is not None:
             record.append(len(lines))
